@@ -862,3 +862,108 @@ Definition consts_of (l : list ev) : list (string * kind * cexpr) :=
   flat_map (fun e => match e with EConst n k x => [(n, k, x)] | _ => [] end) l.
 Definition enumerators_of (l : list ev) : list (string * list (string * list cexpr)) :=
   flat_map (fun e => match e with EEnum n _ _ es => [(n, es)] | _ => [] end) l.
+
+(* ================== observed type descriptions (the compiled generated crate prints them) *)
+(* One record per generated struct: what <T as TypeSupport>::get_type() reports. *)
+
+Record obs_member : Type := mkOM { om_name : string; om_id : string; om_key : bool; om_opt : bool }.
+Record obs_struct : Type :=
+  mkOS { os_path : list string;      (* Rust path of the type inside the generated code *)
+         os_name : list string;      (* descriptor name, split at "::" *)
+         os_ext : string;            (* "final" | "appendable" | "mutable" *)
+         os_base : bool;             (* descriptor has a base type *)
+         os_members : list obs_member }.
+
+Definition is_digit (c : ascii) : bool :=
+  let n := nat_of_ascii c in (Nat.leb 48 n && Nat.leb n 57)%bool.
+Fixpoint all_digits (s : string) : bool :=
+  match s with EmptyString => true | String c t => is_digit c && all_digits t end.
+Definition is_decimal (s : string) : bool :=
+  match s with EmptyString => false | _ => all_digits s end.
+
+(* an id given as a decimal literal must be the reported id; other expressions are not evaluated *)
+Definition id_agrees (declared : option cexpr) (observed : string) : bool :=
+  match declared with
+  | Some e => if is_decimal e then e =? observed else true
+  | None => true
+  end.
+
+(* ---- what the derive macro makes of the generated items (dds_derive: type_support.rs,
+   attributes.rs): name = `name` argument or the identifier; extensibility defaults to final;
+   key / optional from the FIRST #[dust_dds] attribute of the field; an explicit id is used
+   only for a mutable struct *)
+Record pred_member : Type := mkPM { pm_name : string; pm_id : option cexpr; pm_key : bool; pm_opt : bool }.
+Record pred_struct : Type :=
+  mkPS { ps_path : list string; ps_name : list string; ps_ext : string; ps_base : bool; ps_members : list pred_member }.
+
+Definition ext_or_final (e : option string) : string := match e with Some s => s | None => "final" end.
+
+Definition derive_struct (mods : list string) (attrs : list rattr) (n : string) (fs : list rfield) : pred_struct :=
+  let v := view attrs in
+  let ext := ext_or_final (find_ext v) in
+  mkPS (mods ++ [n]) (qname_of v n) ext (opt_some (find_base v))
+       (map (fun f => let fv := view (f_attrs f) in
+                      mkPM (f_name f) (if ext =? "mutable" then find_id fv else None)
+                           (existsb is_key_arg fv) (existsb is_opt_arg fv)) fs).
+
+Fixpoint derive_structs (mods : list string) (it : ritem) : list pred_struct :=
+  match it with
+  | RMod n items => flat_map (derive_structs (mods ++ [n])) items
+  | RStruct attrs n fs => [derive_struct mods attrs n fs]
+  | _ => []
+  end.
+
+Definition pm_agrees (p : pred_member) (o : obs_member) : bool :=
+  (pm_name p =? om_name o) && id_agrees (pm_id p) (om_id o)
+  && Bool.eqb (pm_key p) (om_key o) && Bool.eqb (pm_opt p) (om_opt o).
+
+Fixpoint list_agree {A B} (f : A -> B -> bool) (l : list A) (m : list B) : bool :=
+  match l, m with
+  | [], [] => true
+  | x :: l', y :: m' => f x y && list_agree f l' m'
+  | _, _ => false
+  end.
+
+Definition ps_agrees (p : pred_struct) (o : obs_struct) : bool :=
+  list_eqb String.eqb (ps_path p) (os_path o) && list_eqb String.eqb (ps_name p) (os_name o)
+  && (ps_ext p =? os_ext o) && Bool.eqb (ps_base p) (os_base o)
+  && list_agree pm_agrees (ps_members p) (os_members o).
+
+(* ---- the property on the observed descriptions: what the IDL declares about its structs.
+   [ra]: do not look at what lives in attributes (classes 2 and 4);
+   [ri]: do not look at explicit ids of non-mutable structs (class 5) *)
+Definition declared_member_agrees (ra ri : bool) (mutable : bool) (m : mshape) (o : obs_member) : bool :=
+  (ms_name m =? om_name o)
+  && (ra || (Bool.eqb (ms_key m) (om_key o) && Bool.eqb (ms_opt m) (om_opt o)
+             && (if (negb mutable && ri)%bool then true else id_agrees (ms_id m) (om_id o)))).
+
+Definition declared_struct_agrees (ra ri : bool) (mods : list string) (e : ev) (o : obs_struct) : bool :=
+  match e with
+  | EStruct n qn ext base ms =>
+      let mutable := ext_or_final ext =? "mutable" in
+      (n =? last (os_path o) "")
+      && (ra || (list_eqb String.eqb qn (os_name o) && (ext_or_final ext =? os_ext o)
+                 && Bool.eqb (opt_some base) (os_base o)))
+      && list_agree (declared_member_agrees ra ri mutable)
+           ms (match base, os_members o with
+               | Some _, p :: r => if om_name p =? "parent" then r else os_members o
+               | _, _ => os_members o
+               end)
+  | _ => false
+  end.
+
+Definition is_struct_ev (e : ev) : bool := match e with EStruct _ _ _ _ _ => true | _ => false end.
+
+Definition descriptions_agree (ra ri : bool) (defs : list def) (obs : list obs_struct) : bool :=
+  list_agree (declared_struct_agrees ra ri []) (filter is_struct_ev (shape_of_defs [] defs)) obs.
+
+(* class 5 — an explicit @id on a member of a struct that is not @mutable *)
+Definition member_has_id (m : member) : bool := opt_some (find_id (rec_args (m_annots m))).
+Fixpoint def_id_nonmutable (d : def) : bool :=
+  match d with
+  | DModule _ body => existsb def_id_nonmutable body
+  | DStruct A _ _ ms =>
+      negb (ext_or_final (find_ext (flat_map ext_arg A)) =? "mutable") && existsb member_has_id ms
+  | _ => false
+  end.
+Definition known_id_nonmutable (defs : list def) : bool := existsb def_id_nonmutable defs.
